@@ -74,8 +74,10 @@ func Check(p *plan.Plan, r *runner.Result) []Violation {
 		c.realClientVsModel()
 	case p.Scen.Server == "lookup":
 		c.atomicReload()
+	case p.Scen.Server == "syslog-direct":
+		c.syslogDirect()
 	}
-	if p.Scen.Server != "none" && p.Scen.Server != "lookup" && p.Scen.Loader == nil {
+	if p.Scen.Server != "none" && p.Scen.Server != "lookup" && p.Scen.Server != "syslog-direct" && p.Scen.Loader == nil {
 		c.shutdown()
 		c.gauges()
 	}
